@@ -65,11 +65,12 @@ func ResourcesUniverse(level string) *Universe {
 	collection("cString", "cStringId", P(String), ent, false)
 	collection("cInt64", "cInt64Id", P(Int64), ent, true)
 	collection("cComplex", "cComplexId", ck, ent, false)
+	// (an enum key: the only key type whose values can be invalid, and whose validity the generated code decides)
+	collection("cEnum", "cEnumId", e3, ent, true)
 	if level == "full" {
 		collection("cInt32", "cInt32Id", P(Int32), ent, false)
 		collection("cBool", "cBoolId", P(Bool), ent, false)
 		collection("cFloat64", "cFloat64Id", P(Float64), ent, false)
-		collection("cEnum", "cEnumId", e3, ent, true)
 		collection("cTrString", "cTrStringId", trs, ent, false)
 		collection("cTrInt64", "cTrInt64Id", tri, ent, false)
 	}
